@@ -444,7 +444,9 @@ def prog_def(e, pat, body, shape, wrap):
 def prog_newcommand(e, nargs, opt, body, optcase, shape):
     g = Gen(e)
     toks = T('\\newcommand{\\mya}[%d]' % nargs)
-    if opt:
+    if opt == 'empty-default':
+        toks += [C('['), C(']')]                    # \newcommand{\mya}[n][]{..}: the default is empty, the argument is still optional
+    elif opt:
         toks += [C('[')] + [g.p()] + [C(']')]
     toks += [C('{')] + T(body) + [C('}')]
     call = [CS('mya')]
@@ -680,11 +682,13 @@ def def_combos(tier):
 def nc_combos(tier):
     out = []
     for nargs in (1, 2, 3):
-        for opt in (False, True):
+        for opt in (False, True, 'empty-default'):
             for body in BODIES[nargs][:3]:
-                for optcase in (('present', 'absent', 'empty') if opt else ('absent',)):      # a ] hidden in braces is outside the normal form
+                for optcase in (('present', 'absent', 'empty', 'braced') if opt else ('absent',)):
                     for shape in ('tok', 'grp', 'sp'):
                         if opt and nargs == 1 and shape != 'tok':
+                            continue
+                        if opt == 'empty-default' and body != BODIES[nargs][0]:
                             continue
                         out.append((nargs, opt, body, optcase, shape))
     return out
